@@ -3,12 +3,20 @@ import CoclsModel.SharedFutureInv
 namespace Cocls.SharedFuture
 variable {c : Cfg} {s : State} {t : Nat}
 
-theorem nCharge_drop1 (is : List CI) : nCharge (is.drop 1) ≤ nCharge is := by
-  cases is with
-  | nil => simp [nCharge]
-  | cons a l => cases a <;> simp [nCharge]
+theorem nCharge_filter (is : List CI) : nCharge (is.filter (fun i => !i.isCharge)) = 0 := by
+  induction is with
+  | nil => rfl
+  | cons a l ih =>
+      rw [List.filter_cons]
+      cases ha : a.isCharge
+      · simp only [Bool.not_false, if_true]
+        cases a <;> first | exact ih | (simp [CI.isCharge] at ha)
+      · simp only [Bool.not_true, Bool.false_eq_true, if_false]
+        exact ih
 
-theorem mem_drop1 (x : CI) (is : List CI) (h : x ∈ is.drop 1) : x ∈ is := List.mem_of_mem_drop h
+theorem mem_filter_noCharge (x : CI) (is : List CI) (hx : x.isCharge = false) :
+    x ∈ is.filter (fun i => !i.isCharge) ↔ x ∈ is := by
+  simp [List.mem_filter, hx]
 
 /-- facts about the constructing creator -/
 theorem ctor_facts (h : Inv c s) (i : CI) (is : List CI) (hpc : s.pc t = Pc.cRun (i :: is)) :
@@ -50,14 +58,16 @@ theorem inv_c_loadTmp (h : Inv c s) (is : List CI) (hpc : s.pc t = Pc.cRun (CI.l
   inv_auto h
 
 theorem inv_c_loadPending_ready (h : Inv c s) (is : List CI) (hpc : s.pc t = Pc.cRun (CI.loadPending :: is))
-    (hs : s.slot = Slot.ready) : Inv c (setPc (touch s) t (Pc.cRun (is.drop 1))) := by
+    (hs : s.slot = Slot.ready) : Inv c (setPc (touch s) t (Pc.cRun (is.filter (fun i => !i.isCharge)))) := by
   obtain ⟨h0, hn, hf, hr, ha⟩ := ctor_facts h _ _ hpc
-  have hw : wacts c (setPc (touch s) t (Pc.cRun (is.drop 1))) = wacts c s :=
+  have hw : wacts c (setPc (touch s) t (Pc.cRun (is.filter (fun i => !i.isCharge)))) = wacts c s :=
     wacts_setPc c s _ t _ rfl ha (by simp [actsOf])
   have hc := h.aCtor t _ hpc
   simp only [nCharge, List.mem_cons] at hc
-  have hd := nCharge_drop1 is
-  have hm := mem_drop1 CI.loadTmp is
+  have hd := nCharge_filter is
+  have hm := mem_filter_noCharge CI.loadTmp is rfl
+  have hpp := h.pubPc
+  have hm' : CI.loadTmp ∈ CI.loadPending :: is ↔ CI.loadTmp ∈ is := by simp
   simp only [setPc, touch] at hw ⊢
   inv_auto h
 
